@@ -10,6 +10,10 @@ ENGINES = [
      "kind_free_text": "records a workload on the real Database through syscall interposers + the page_mut hook, builds kill / strict / lenient power-loss images at every event, reopens every distinct crash state with the real Database::open"},
     {"name": "SEQ", "path": "/verif/mc/checks/src/bin", "serves_properties": ["C03", "C25", "C28", "C29", "C34"],
      "kind_free_text": "explicit-state BFS / bounded history enumeration of a real component (B-tree over in-memory Storage, freelist, WAL, HNSW file) in lock-step with a reference model"},
+    {"name": "QRY", "path": "/verif/mc/checks/src/bin", "serves_properties": ["C11", "C13", "C14", "C15", "C16", "C17", "C18", "C19", "C20", "C24"],
+     "kind_free_text": "bounded-exhaustive expression/query enumeration over small tables that are full cross products of NULL-bearing domains, judged by the reference model refmodel::sql or by metamorphic/differential twins"},
+    {"name": "SQLH", "path": "/verif/mc/checks/src/bin", "serves_properties": ["C04", "C05", "C06", "C07", "C08", "C09", "C10", "C12", "C21", "C42", "C43"],
+     "kind_free_text": "every SQL statement history up to a depth over a small collision-forcing alphabet, executed on fresh real databases, in lock-step with the relational model or a differential twin"},
     {"name": "BYTES/INPUT", "path": "/verif/mc/checks/src/bin", "serves_properties": ["C03", "C23", "C26", "C27", "C30", "C31", "C32", "C33", "C41"],
      "kind_free_text": "bounded-exhaustive input enumeration of real codec functions on guard-paged buffers"},
 ]
